@@ -145,20 +145,29 @@ func checkSym(c symCase) (string, caseStat) {
 		return "harness: reference encryption failed: " + err.Error(), st
 	}
 	if !bytes.Equal(enc.ct, refCt) || !bytes.Equal(enc.tag, refTag) {
-		return fmt.Sprintf("kit's output differs from the independent implementation: kit %s, reference (ct=%x tag=%x)", enc, refCt, refTag), st
+		return fmt.Sprintf("kit's output differs from the independent implementation: kit %s, reference (ct=%s tag=%x)", enc, hx(refCt), refTag), st
 	}
 	// peer decrypts kit's output
 	back, err := spec.Decrypt(keyB, nonce, enc.ct, enc.tag, aad)
 	if err != nil || !bytes.Equal(back, pt) {
-		return fmt.Sprintf("the independent implementation cannot decrypt kit's output: %x, %v", back, err), st
+		return fmt.Sprintf("the independent implementation cannot decrypt kit's output: %s, %v", hx(back), err), st
 	}
 	// kit decrypts the peer's output (byte-identical to its own, so this is also the round trip)
 	dec := kitDecrypt(c.API, refCt, c.Alg, key, nonce, refTag, aad)
 	if dec.pnc != nil || dec.err != nil || !bytes.Equal(dec.pt, pt) {
-		return fmt.Sprintf("decryption does not invert encryption: got %s want pt=%x", dec, pt), st
+		return fmt.Sprintf("decryption does not invert encryption: got %s want pt=%s", dec, hx(pt)), st
 	}
 	st.nontrivial = c.PtLen > 0
 	st.classes = append(st.classes, "sym.roundtrip."+spec.Family)
+	if c.PtLen > 320 {
+		st.classes = append(st.classes, "sym.long-message."+spec.Family)
+		if spec.Family == "kw" {
+			st.classes = append(st.classes, kwCounterClass(c.PtLen/8))
+		}
+	}
+	if c.AadLen > 40 && spec.AAD {
+		st.classes = append(st.classes, "sym.long-aad."+spec.Family)
+	}
 
 	if c.Mut == nil {
 		return "", st
@@ -233,7 +242,7 @@ func checkSym(c symCase) (string, caseStat) {
 		return "", st
 	}
 	if msg := mexp.check(dec.err); msg != "" {
-		return fmt.Sprintf("mutated input accepted or misreported (%s): %s; got %s, original plaintext %x", mexp.String(), msg, dec, pt), st
+		return fmt.Sprintf("mutated input accepted or misreported (%s): %s; got %s, original plaintext %s", mexp.String(), msg, dec, hx(pt)), st
 	}
 	st.nontrivial = true
 	st.classes = append(st.classes, "sym.reject."+m.Comp+"."+m.Kind)
@@ -418,6 +427,63 @@ func TestSymLengths(t *testing.T) {
 	sec.SetExhaustive()
 }
 
+// symLongLens: message lengths beyond the few blocks of TestSymLengths, around the places
+// where the length- and position-dependent quantities of the constructions need another
+// byte: 256 / 65536 bytes, 256 / 65536 bits, 256 / 4096 cipher blocks, and the RFC 3394 step
+// counter 6n reaching 256 (344 bytes of key data) and 65536 (87384 bytes).
+var symLongLens = []int{255, 256, 257, 335, 336, 337, 343, 344, 345, 352, 511, 512, 513, 1023, 1024, 1032, 2047, 2048, 2056,
+	4080, 4095, 4096, 4097, 4104, 4112, 8191, 8192, 8200, 65528, 65535, 65536, 65537, 65544, 87376, 87384, 87392}
+
+// symLongAads: associated-data lengths around 256 / 65536 bits and bytes (RFC 7518 5.2.2.1
+// and the GCM / Poly1305 constructions all authenticate the length of the associated data).
+var symLongAads = []int{31, 32, 33, 255, 256, 257, 8191, 8192, 8193, 65535, 65536, 65537}
+
+// TestSymLongLengths: every algorithm x entry point x the long message lengths of
+// symLongLens (lengths outside an algorithm's domain are the ill-formed twin) x two
+// associated-data lengths; every algorithm with associated data x symLongAads. With
+// mutations of the last and the middle byte of the ciphertext for the long messages.
+func TestSymLongLengths(t *testing.T) {
+	sec := vk.Sec("SymLongLengths")
+	idx := 0
+	for _, s := range refcrypto.SymSpecs {
+		for _, api := range []string{"sym", "generic"} {
+			for _, pl := range symLongLens {
+				for _, al := range []int{0, 33} {
+					idx++
+					if !vk.Mine(idx) {
+						continue
+					}
+					c := symCase{API: api, Alg: s.Name, KeyKind: "oct", KeyLen: s.Key, NonceLen: max(s.Nonce, 0), PtLen: pl, AadLen: al, Seed: uint64(idx) * 131}
+					switch idx % 3 {
+					case 1:
+						c.Mut = &mutation{Comp: "ct", Kind: "flip", Pos: pl - 1, Mask: 0x01}
+					case 2:
+						c.Mut = &mutation{Comp: "ct", Kind: "flip", Pos: pl / 2, Mask: 0x80}
+					}
+					runSym(t, sec, c)
+				}
+			}
+			if !s.AAD {
+				continue
+			}
+			for _, al := range symLongAads {
+				idx++
+				if !vk.Mine(idx) {
+					continue
+				}
+				c := symCase{API: api, Alg: s.Name, KeyKind: "oct", KeyLen: s.Key, NonceLen: max(s.Nonce, 0), PtLen: 40, AadLen: al, Seed: uint64(idx) * 131}
+				switch idx % 3 {
+				case 1:
+					c.Mut = &mutation{Comp: "aad", Kind: "flip", Pos: al - 1, Mask: 0x01}
+				case 2:
+					c.Mut = &mutation{Comp: "aad", Kind: "trunc", N: 1}
+				}
+				runSym(t, sec, c)
+			}
+		}
+	}
+}
+
 // TestSymKeyKinds: every algorithm x entry point x every fixed asymmetric key (wrong kind).
 func TestSymKeyKinds(t *testing.T) {
 	sec := vk.Sec("SymKeyKinds")
@@ -537,15 +603,24 @@ func TestSymRapid(t *testing.T) {
 		} else {
 			c.NonceLen = rapid.IntRange(0, 32).Draw(rt, "nonceLen")
 		}
-		switch rapid.IntRange(0, 3).Draw(rt, "ptClass") {
-		case 0, 1:
+		switch rapid.IntRange(0, 9).Draw(rt, "ptClass") {
+		case 0, 1, 2, 3:
 			c.PtLen = rapid.SampledFrom(blockishLens).Draw(rt, "ptBlockish")
-		case 2:
+		case 4, 5:
 			c.PtLen = spec.PtMod * rapid.IntRange(0, 320/spec.PtMod).Draw(rt, "ptUnits")
-		default:
+		case 6, 7:
 			c.PtLen = rapid.IntRange(0, 320).Draw(rt, "ptLen")
+		case 8:
+			// long messages, in the algorithm's granularity (key wrap: 41..640 blocks)
+			c.PtLen = spec.PtMod * rapid.IntRange(320/spec.PtMod+1, 5120/spec.PtMod).Draw(rt, "ptUnitsLong")
+		default:
+			c.PtLen = rapid.IntRange(321, 5120).Draw(rt, "ptLenLong")
 		}
-		c.AadLen = rapid.OneOf(rapid.Just(0), rapid.IntRange(0, 40)).Draw(rt, "aadLen")
+		if rapid.IntRange(0, 15).Draw(rt, "aadClass") == 0 {
+			c.AadLen = rapid.IntRange(41, 9000).Draw(rt, "aadLenLong")
+		} else {
+			c.AadLen = rapid.OneOf(rapid.Just(0), rapid.IntRange(0, 40)).Draw(rt, "aadLen")
+		}
 		c.Seed = rapid.Uint64().Draw(rt, "seed")
 		c.Mut = genMutation(rt, []string{"ct", "ct", "tag", "nonce", "aad", "key"})
 		msg, st := checkSym(c)
